@@ -193,6 +193,26 @@ def concatHeap (h : Heap) (p q : Nat) (ks : List Nat) (r : Regs) : Option (Heap 
     | _ => none
   | _, _ => none
 
+/-! ### the byte intrinsics `string_count_bytes` / `string_nth_byte` (`Instr::StringCountBytes`,
+`Instr::StringNthByte`): single-step instructions; an index that is negative or not below the
+length is the array-out-of-bounds runtime error -/
+
+inductive ByteRes where
+  | val (n : Int)
+  | outOfBounds
+  deriving Repr, DecidableEq
+
+/-- `s.len() as AbraInt` -/
+def countBytes (s : Bytes) : Int := s.length
+
+/-- `if n < 0 || n as usize >= s.len() { ArrayOutOfBounds } else { s.as_bytes()[n as usize] as AbraInt }` -/
+def nthByte (s : Bytes) (n : Int) : ByteRes :=
+  if n < 0 ∨ n.toNat ≥ s.length then .outOfBounds
+  else
+    match s[n.toNat]? with
+    | some b => .val b.toNat
+    | none => .outOfBounds
+
 /-- `!=` is `EqualString` followed by `Not` -/
 def neOfEq (v : Bool) : Bool := !v
 
